@@ -524,3 +524,227 @@ func ruleCM6() Rule {
 			}
 		}}
 }
+
+// SP4: special parameters are set whatever they hold.
+func ruleSP4() Rule {
+	return Rule{ID: "SP4", Kind: "must-not", Floor: 1,
+		Doc: "ExecEnv.Get decides whether a special parameter is set from which parameter it is, never from its value being non-empty: `$-` with no option on, `$0` with an empty name are set but null (`${-+w}` is w), and only `$!` can be unset. No assignment to Get's `set` result compares a value with the empty string",
+		Run: func(c *Ctx, rr *core.RuleResult) {
+			f := c.mustFn(rr, "interp.(*ExecEnv).Get")
+			if f == nil {
+				return
+			}
+			info := f.Info()
+			var setObj types.Object
+			if f.Type.Results != nil {
+				for _, fld := range f.Type.Results.List {
+					for _, nm := range fld.Names {
+						if o := info.Defs[nm]; o != nil && o.Type().String() == "bool" {
+							setObj = o
+						}
+					}
+				}
+			}
+			key := f.Name + "|set is not derived from the value"
+			if setObj == nil {
+				rr.Unk(f, key, f.Pos(), "Get has no named boolean result")
+				return
+			}
+			bad := token.NoPos
+			n := 0
+			f.OwnNodes(func(x ast.Node) bool {
+				as, ok := x.(*ast.AssignStmt)
+				if !ok || len(as.Lhs) != len(as.Rhs) {
+					return true
+				}
+				for i, l := range as.Lhs {
+					id, isID := ast.Unparen(l).(*ast.Ident)
+					if !isID || info.Uses[id] != setObj {
+						continue
+					}
+					n++
+					ast.Inspect(as.Rhs[i], func(y ast.Node) bool {
+						be, isBE := y.(*ast.BinaryExpr)
+						if !isBE || (be.Op != token.NEQ && be.Op != token.EQL) {
+							return true
+						}
+						if s, isC := constStr(info, be.Y); isC && s == "" {
+							// a comparison of the *name* with "" would be harmless, but there is none to make
+							if xid, isX := ast.Unparen(be.X).(*ast.Ident); !isX || !isParamOf(f, info.Uses[xid]) {
+								bad = be.Pos()
+							}
+						}
+						return true
+					})
+				}
+				return true
+			})
+			// (b) `$!` is the one special parameter that can be unset: the tail shared by the
+			// clauses of the special parameters does not report all of them as set
+			for _, sw := range switches(c.P, f) {
+				cl := sw.clauseFor0("!")
+				if cl == nil {
+					continue
+				}
+				blk, ok := c.P.Parent(sw.sw).(*ast.BlockStmt)
+				if !ok {
+					continue
+				}
+				for _, st := range blk.List {
+					as, isAs := st.(*ast.AssignStmt)
+					if !isAs || st.Pos() < sw.sw.End() || len(as.Lhs) != 1 || len(as.Rhs) != 1 {
+						continue
+					}
+					if id, isID := ast.Unparen(as.Lhs[0]).(*ast.Ident); isID && info.Uses[id] == setObj {
+						if tv, has := info.Types[as.Rhs[0]]; has && tv.Value != nil && tv.Value.String() == "true" {
+							rr.Bad(f, f.Name+"|$! can be unset", as.Pos(), "every special parameter, `$!` included, is reported as set: while no background command was started `${!-w}` must expand to w and `$!` is an error under nounset")
+						} else {
+							rr.OK(f, f.Name+"|$! can be unset", as.Pos(), "by-name", "the shared tail does not set the flag unconditionally")
+						}
+					}
+				}
+			}
+			switch {
+			case bad != token.NoPos:
+				rr.Bad(f, key, bad, "whether a special parameter is set is derived from its value being non-empty: `$-` while no option is on is reported as unset, so `${-+w}` expands to nothing and `${--w}` to w")
+			case n == 0:
+				rr.Unk(f, key, f.Pos(), "Get never assigns its `set` result")
+			default:
+				rr.OK(f, key, f.Pos(), "by-name", fmt.Sprintf("%d assignment(s) to the result, none compares a value with \"\"", n))
+			}
+		}}
+}
+
+// BR6: the ends of text nodes count characters.
+func ruleBR6() Rule {
+	return Rule{ID: "BR6", Kind: "must-not", Floor: 1,
+		Doc: "no Pos()/End() method of package ast advances a column by the byte length of free text (the string fields the lexer fills from the source: Lit.Value, Comment.Text): columns count characters, so the text is counted rune by rune. The lengths of operator spellings (Op fields, which hold ASCII operators) are not affected",
+		Run: func(c *Ctx, rr *core.RuleResult) {
+			free := map[*types.Var]bool{}
+			for _, nm := range [][2]string{{"Lit", "Value"}, {"Comment", "Text"}} {
+				if v := c.fieldVar("ast", nm[0], nm[1]); v != nil {
+					free[v] = true
+				}
+			}
+			if len(free) == 0 {
+				rr.Unkp(c.P, "ast|text fields", 0, "Lit.Value / Comment.Text not found")
+				return
+			}
+			n := 0
+			for _, f := range c.funcsOfPkg("ast", false) {
+				if f.Decl == nil || f.Decl.Recv == nil || (f.Decl.Name.Name != "End" && f.Decl.Name.Name != "Pos") {
+					continue
+				}
+				info := f.Info()
+				n++
+				bad := token.NoPos
+				f.OwnNodes(func(x ast.Node) bool {
+					call, ok := x.(*ast.CallExpr)
+					if !ok || !isBuiltinCall(info, call, "len") || len(call.Args) != 1 {
+						return true
+					}
+					if v := core.FieldOf(info, call.Args[0]); v != nil && free[v] {
+						bad = call.Pos()
+					}
+					return true
+				})
+				key := f.Name + "|text counted in characters"
+				if bad != token.NoPos {
+					rr.Bad(f, key, bad, "a position is advanced by the byte length of source text: for text with multi-byte characters the position lies beyond the end of the line")
+				} else {
+					rr.OK(f, key, f.Pos(), "runes", "no byte length of free text enters the position")
+				}
+			}
+			if n == 0 {
+				rr.Unkp(c.P, "ast|End methods", 0, "no Pos/End methods found in package ast")
+			}
+		}}
+}
+
+// AL5: the trailing blank of every alias that ends here counts.
+func ruleAL5() Rule {
+	return Rule{ID: "AL5", Kind: "must", Floor: 1,
+		Doc: "the values of nested alias substitutions can end at the same character (outer='a ', a='b': both end behind `b`). Whether the next word is examined is decided from every alias on the stack whose text is used up, down to the first one that still has text: the `blank` flag of the aliases is read inside a loop over the stack, not from the topmost entry alone",
+		Run: func(c *Ctx, rr *core.RuleResult) {
+			blank := c.fieldVar("parser", "alias", "blank")
+			stack := c.fieldVar("parser", "lexer", "aliases")
+			text := c.fieldVar("parser", "alias", "value")
+			if blank == nil || stack == nil {
+				rr.Unkp(c.P, "parser.alias.blank", 0, "the alias record's blank flag or the lexer's alias stack was not found")
+				return
+			}
+			n := 0
+			for _, f := range c.funcsOfPkg("parser", false) {
+				info := f.Info()
+				f.OwnNodes(func(x ast.Node) bool {
+					se, ok := x.(*ast.SelectorExpr)
+					if !ok || core.FieldOf(info, se) != blank {
+						return true
+					}
+					// reads only (the composite literal that builds the record uses a key, not a selector)
+					if as, isAs := c.P.Parent(se).(*ast.AssignStmt); isAs {
+						for _, l := range as.Lhs {
+							if l == ast.Expr(se) {
+								return true
+							}
+						}
+					}
+					n++
+					key := fmt.Sprintf("%s|blank flag read #%d", f.Name, n)
+					inLoop := false
+					endsAtText := false
+					for p := c.P.Parent(se); p != nil; p = c.P.Parent(p) {
+						switch y := p.(type) {
+						case *ast.ForStmt:
+							ast.Inspect(y, func(z ast.Node) bool {
+								if s2, isSel := z.(*ast.SelectorExpr); isSel && core.FieldOf(info, s2) == stack {
+									inLoop = true
+								}
+								return true
+							})
+							// the loop goes on only while the entries are used up: one conjunct of its
+							// condition looks at the entry's text
+							if y.Cond != nil {
+								for _, cj := range conj(y.Cond) {
+									ast.Inspect(cj, func(z ast.Node) bool {
+										if s2, isSel := z.(*ast.SelectorExpr); isSel && text != nil && core.FieldOf(info, s2) == text {
+											endsAtText = true
+										}
+										// or a method of the alias record that looks at it (a.len())
+										if call, isCall := z.(*ast.CallExpr); isCall {
+											if fo := core.StaticCallee(info, call); fo != nil {
+												if h := c.P.FuncOf(fo); h != nil && h.Body != nil && text != nil {
+													h.OwnNodes(func(w ast.Node) bool {
+														if s3, ok3 := w.(*ast.SelectorExpr); ok3 && core.FieldOf(h.Info(), s3) == text {
+															endsAtText = true
+														}
+														return true
+													})
+												}
+											}
+										}
+										return true
+									})
+								}
+							}
+						case *ast.RangeStmt:
+							if core.FieldOf(info, y.X) == stack {
+								inLoop = true
+							}
+						}
+					}
+					if inLoop && !endsAtText {
+						rr.Bad(f, key, se.Pos(), "the flags of the alias stack are collected without stopping at the first entry that still has text: the trailing blank of an alias whose value is not used up yet (or of one below it) makes a word in the middle of that value subject to substitution")
+					} else if inLoop {
+						rr.OK(f, key, se.Pos(), "all-ended", "every alias whose text is used up is consulted, down to the first one that still has text")
+					} else {
+						rr.Bad(f, key, se.Pos(), "only one entry of the alias stack is asked whether its value ends in a blank: when that value ends in another alias, the inner one (which has no trailing blank) hides it and the next word is not examined (outer='a ', a='b': `outer x`)")
+					}
+					return true
+				})
+			}
+			if n == 0 {
+				rr.Unkp(c.P, "parser|blank flag", 0, "the blank flag is never read")
+			}
+		}}
+}
